@@ -387,4 +387,4 @@ def _obligations():
 
 
 def obligations():
-    return _obligations() + [constructors_obligation(['cryomotl.Motl', 'cryomotl.EmMotl']), labels_obligation("C07"), selectors_obligation("C07"), mutations_obligation("C07"), effects_obligation("C07"), plumbing_obligation("C07"), overrides_obligation("C07"), options_obligation("C07"), handlers_obligation("C07")]
+    return _obligations() + [constructors_obligation(['cryomotl.Motl', 'cryomotl.EmMotl']), labels_obligation("C07"), selectors_obligation("C07"), mutations_obligation("C07"), loopstate_obligation("C07"), effects_obligation("C07"), plumbing_obligation("C07"), overrides_obligation("C07"), options_obligation("C07"), handlers_obligation("C07")]
